@@ -74,6 +74,7 @@ class Program:
         self.impl_hdr = {}         # item key -> impl header text
         self.closure_of = {}       # (crate, fn name, local) -> closure def path
         self.closure_zst = {}      # (crate, fn name, bb, kept-line index) -> [def paths of zero-sized closure constants, in order]
+        self.closure_nup = {}      # (crate, fn name, local) -> number of captured upvars (textual MIR prints only one capture per captured variable)
         self.crates = []
         self._res = {}
         self._by_suffix = None
@@ -143,12 +144,12 @@ class Program:
     def _load_verbose(self, crate):
         path = os.path.join(self.mirdir, crate + '.vmir')
         if not os.path.exists(path): return
-        pk = path + '.pkl3'
+        pk = path + '.pkl4'
         if os.path.exists(pk) and os.path.getmtime(pk) >= os.path.getmtime(path):
             try:
-                a, b = pickle.load(open(pk, 'rb')); self.closure_of.update(a); self.closure_zst.update(b); return
+                a, b, c = pickle.load(open(pk, 'rb')); self.closure_of.update(a); self.closure_zst.update(b); self.closure_nup.update(c); return
             except Exception: pass
-        out = {}; zst = {}
+        out = {}; zst = {}; nup = {}
         cur = None; bb = None; idx = 0
         zre = re.compile(r'const ConstValue\(ZeroSized: \{((?:[^{}]|\{closure#\d+\})+?::\{closure#\d+\})(?:<[^>]*>)? closure_kind_ty')
         for line in open(path):
@@ -158,7 +159,10 @@ class Program:
             if line.startswith('}'): cur = None; continue
             if line.startswith('    let ') and 'closure#' in line:
                 m = re.match(r'\s+let (?:mut )?(_\d+): \{([A-Za-z_0-9:<>{}#, ]+?::\{closure#\d+\})(?:<[^>]*>)? closure_kind_ty', line)
-                if m: out[(crate, cur, m.group(1))] = re.sub(r'<[^>]*>', '', m.group(2))
+                if m:
+                    out[(crate, cur, m.group(1))] = re.sub(r'<[^>]*>', '', m.group(2))
+                    mu = re.search(r' upvar_tys=\((.*)\)\}', line)
+                    if mu: nup[(crate, cur, m.group(1))] = len(split_top(mu.group(1)))
                 continue
             st = line.strip()
             if st.startswith('bb'):
@@ -170,8 +174,8 @@ class Program:
                     ms = zre.findall(st)
                     if ms: zst[(crate, cur, bb, idx)] = [re.sub(r'<[^>]*>', '', x) for x in ms]
                 idx += 1
-        self.closure_of.update(out); self.closure_zst.update(zst)
-        try: pickle.dump((out, zst), open(pk, 'wb'))
+        self.closure_of.update(out); self.closure_zst.update(zst); self.closure_nup.update(nup)
+        try: pickle.dump((out, zst, nup), open(pk, 'wb'))
         except Exception: pass
 
     # ------------------------------------------------------------ ADT info from -Zunpretty=expanded
